@@ -8,6 +8,7 @@ package main
 
 import (
 	"context"
+	"encoding/json"
 	"flag"
 	"fmt"
 	"net/http/httptest"
@@ -377,6 +378,44 @@ func (w *world) run() {
 		w.mu.Lock()
 		w.step = si
 		w.mu.Unlock()
+		if st.Op != "connect" && (st.T < 0 || st.T >= len(w.conns)) {
+			st.Op = "skip" // (a shrunk script may name a connection that no longer exists)
+		}
+		if st.Op == "connect" {
+			st.T = len(w.conns)
+			c.Steps[si].T = st.T
+		}
+		if st.Op == "close" || st.Op == "sever" {
+			sc := w.conns[st.T]
+			select {
+			case <-sc.atServed: // already stopped serving
+				st.Op = "skip"
+			default:
+				select {
+				case <-sc.connected:
+				default: // still held before OnConnect
+					st.Op = "skip"
+				}
+			}
+		}
+		if st.Op == "release" {
+			sc := w.conns[st.T]
+			select {
+			case <-sc.ended: // already finished
+				st.Op = "skip"
+			default:
+				select {
+				case <-sc.connected:
+					select {
+					case <-sc.atServed:
+					default: // serving, not held anywhere
+						st.Op = "skip"
+					}
+				default:
+				}
+			}
+		}
+		c.Steps[si].Op = st.Op
 		switch st.Op {
 		case "connect":
 			sc := &sconn{idx: len(w.conns), name: st.Name, atCB: make(chan struct{}),
@@ -618,16 +657,41 @@ func runHistory(c *Case, seed uint64) {
 	}
 }
 
+func loadScript(path string) []Case {
+	bs, err := os.ReadFile(path)
+	if err != nil {
+		fmt.Fprintln(os.Stderr, err)
+		os.Exit(2)
+	}
+	var cs []Case
+	if err := json.Unmarshal(bs, &cs); err != nil {
+		fmt.Fprintln(os.Stderr, err)
+		os.Exit(2)
+	}
+	return cs
+}
+
 func main() {
 	seed := flag.Uint64("seed", 1, "seed")
 	n := flag.Int("n", 60, "number of forced histories")
 	nfree := flag.Int("free", 10, "number of free-running histories")
+	script := flag.String("script", "", "JSON file with a list of cases (stream, steps) to run instead")
 	child := flag.Bool("child", false, "child mode")
 	from := flag.Int("from", 0, "first case (child)")
 	mem := flag.Uint64("mem", 4<<30, "address-space limit of the child")
 	flag.Parse()
+	var scripted []Case
+	if *script != "" {
+		scripted = loadScript(*script)
+		*n, *nfree = len(scripted), 0
+	}
 	total := *n + *nfree
-	gen := func(i int) Case { return genHistory(*seed, i, i >= *n) }
+	gen := func(i int) Case {
+		if scripted != nil {
+			return Case{I: i, Stream: scripted[i].Stream, Steps: scripted[i].Steps}
+		}
+		return genHistory(*seed, i, i >= *n)
+	}
 
 	out := hx.NewOut(os.Stdout)
 	if *child {
@@ -641,6 +705,9 @@ func main() {
 		return
 	}
 	args := []string{"-seed", strconv.FormatUint(*seed, 10), "-n", strconv.Itoa(*n), "-free", strconv.Itoa(*nfree)}
+	if *script != "" {
+		args = append(args, "-script", *script)
+	}
 	err := hx.RunIsolated(total, args, *mem,
 		func(i int, raw []byte) { os.Stdout.Write(append(raw, '\n')) },
 		func(i int, why string) {
